@@ -232,6 +232,34 @@ PROPS["C13"] = dict(
     thorough=[c12(2, 1, 3, 2, 3000), c12(2, 1, 7, 2, 3000)],
 )
 
+C14H = ["resolve/c02_render.go", "common/zz_json.go", "resolve/c11_inbound.go", "resolve/c14_auth.go"]
+
+def c14render(mode, dev, two, timeout=900):
+    return spec("H-C14b[%d,%d,%d]" % (mode, dev, two), "./pkg/engine/resolve", C14H, "VerifC14Render", [mode, dev, two],
+                "real Resolvable (Init, %s, Resolve) on plan user{id email* org{email*}} items[{secret*}] (* protected%s), every nullability assignment and every decision function over the 3 protected coordinates symbolic; data = canonical document carrying sentinel values with <=%d deviations (absent, null, wrong kinds, list length 0/1/2)" % ("post-fetch Authorizer" if mode == 0 else "authorizePreFetch with a BatchAuthorizer, seeded from the listed coordinates", ", User.email served by two data sources" if two else "", dev),
+                ["denied at a reached position", "no certainly-reached denial"], timeout=timeout)
+
+def c14fetch(op, mode):
+    return spec("H-C14c[%d,%d]" % (op, mode), "./pkg/engine/resolve", C14H, "VerifC14Fetch", [op, mode],
+                "real ArenaResolveGraphQLResponse + Loader + Resolvable, one %s fetch with root fields a,b; which are protected, the decision per protected field and field nullability symbolic; %s" % ("mutation" if op else "query", "up-front BatchAuthorizer" if mode else "legacy Authorizer (AuthorizePreFetch / AuthorizeObjectField)"),
+                ["request must not be sent", "request is sent"] if (op or mode) else ["request is sent"])
+
+def c14collect(nf, nfetch, timeout=900):
+    return spec("H-C14a[%d,%d]" % (nf, nfetch), "./pkg/engine/postprocess", ["postprocess/c14_collect.go"], "VerifC14Collect", [nf, nfetch],
+                "real collectAuthorizationCoordinates.Process on a response tree with %d leaf field(s) (+ the enclosing object field) and %d fetch(es); type names in {A,B}, field names in {x,y}, data source ids in {1,2}, protection flags, a second data source for the first field, RawFetches vs fetch tree placement: all symbolic" % (nf, nfetch),
+                ["some protected coordinate"], timeout=timeout)
+
+PROPS["C14"] = dict(
+    title="Denied fields never reach the client and denied mutations never reach a subgraph",
+    level_text="bounded symbolic execution of the real authorization code in three composable pieces, the decision function being a symbolic variable in each: (a) the plan-time coordinate collector lists exactly the protected (data source, type, field) triples of a symbolic response tree and fetch list; (b) given the listed coordinates, the real Resolvable renders a response whose data equals the reference completion of the data with every denied field nulled (so sentinel values of denied fields cannot appear and the denial null-propagates), and a denial at a certainly reached position is reported with code and path; (c) through the real resolver entry point and loader, a fetch is sent iff the request-sent rule allows it and denied root fields are reported",
+    level_note="bounds: one fixed plan shape per harness (3 protected coordinates, nested object and list), <=2 data deviations, one fetch with two root fields; abstract types/type-conditioned protected fields, deferred payloads and subscription updates are not exercised; the planner's computation of FieldInfo.HasAuthorizationRule (plan/visitor.go) is outside: harnesses start from the plan (seed C14-3 not detected); composition of (a) with (b)/(c) is by argument: (b)/(c) are given exactly the coordinate list that (a) shows the collector produces; trusted base: gosym, z3, reference completion",
+    design_ref="DESIGN.md §4 C14",
+    assumptions=["the coordinate list handed to authorizePreFetch in (b)/(c) is the set H-C14a shows the collector produces", "authorizer stubs are pure functions of the coordinate (no errors returned)"],
+    stubs=["Authorizer / BatchAuthorizer: harness stubs answering from a symbolic decision table", "DataSource: harness stub returning sentinel data", "go-arena (no arena), sync.Pool (always New)"],
+    quick=[c14collect(2, 0), c14render(0, 1, 0), c14render(1, 1, 1), c14fetch(0, 1), c14fetch(1, 1), c14fetch(0, 0), c14fetch(1, 0)],
+    thorough=[c14collect(2, 1, 1800), c14collect(3, 0, 1800), c14render(0, 2, 1, 1800), c14render(1, 2, 1, 1800), c14render(1, 2, 0, 1800)],
+)
+
 NOT_APPLICABLE = {
     "C20": "The gRPC datasource's data path runs on protoreflect/dynamicpb/protocompile (reflection, unsafe, generated descriptors); no SSA->SMT encoding of it is within reach of the engine built here, and the property is about exactly that path (DESIGN.md §5).",
 }
